@@ -1102,6 +1102,28 @@ fn gen_field(r: &mut Rng, hs: &Hashes) -> String {
         }
         9 => r.pick(&["$6$", "$5$", "$y$", "$6$saltsalt", "$6$saltsalt$", "$y$j9T$", "$6", "$", "$$", "$Y$j9T$abc$def", " $6$saltsalt$abc", "$6 $x"]).to_string(),
         10 => g.to_uppercase(),
+        // digest-shape boundary (D32): length 43 / 86 and the last character's stray bits
+        11 | 12 => {
+            let mut t = g.clone();
+            match r.below(7) {
+                0 => {
+                    t.pop();
+                }
+                1 => t.push('a'),
+                2 => t.push_str("ab"),
+                3 => {
+                    t.pop();
+                    t.push(*r.pick(&['z', 'E', '2', 'D', '1', '.']));
+                }
+                4 => {
+                    let i = t.len() - 5;
+                    t.replace_range(i..i + 1, "!");
+                }
+                5 => t.push('$'),
+                _ => t.push_str("$x"),
+            }
+            t
+        }
         _ => g,
     }
 }
@@ -1277,7 +1299,8 @@ fn main() {
         ctx.run(&Case::Acct { iuu: r.chance(1, 2), h, script });
     }
     mark("acct", &mut lap);
-    // regression: sha256-crypt fields whose digest part is not a canonical 43-character encoding
+    // regression (D32, repaired): sha-crypt fields whose digest part is not a canonical 43 / 86-character encoding
+    // used to panic (sha256) or to verify with trailing characters; they must end in PAM_AUTH_ERR
     if !args.extra.contains_key("fb-only-case") {
         let good = hs.good.iter().find(|(h, c)| h.starts_with("$5$saltsalt") && *c == 1).map(|(h, _)| h.clone()).unwrap();
         let mut last_changed = good.clone().into_bytes();
